@@ -250,7 +250,9 @@ class _PairLoss(OpDef):
         return out
 
     def illegal_configs(self, tier):
-        return [{"shape": [3], "tshape": [2], "via": "F"}, {"shape": [2, 2], "tshape": [2], "via": "F"}]
+        # mismatching shapes; a reduction that is none of 'none' / 'mean' / 'sum' (it must not silently act as one of them)
+        return [{"shape": [3], "tshape": [2], "via": "F"}, {"shape": [2, 2], "tshape": [2], "via": "F"},
+                {"shape": [2, 2], "via": "M", "red": "avg"}, {"shape": [3], "via": "M", "red": "Mean"}]
 
     def inputs(self, args):
         return [Inp("p", args["shape"], **self.pdom),
@@ -345,7 +347,8 @@ class _ClassLoss(OpDef):
         return [{"n": 2, "c": 2, "labels": [0, 2], "via": "F"}, {"n": 2, "c": 2, "labels": [0, -3], "via": "F"},
                 {"n": 2, "c": 2, "labels": [[1], [0]], "via": "F"}, {"n": 2, "c": 3, "labels": [[1], [0]], "via": "M", "red": "mean"},
                 {"n": 2, "c": 2, "labels": [[1, 0]], "via": "F"}, {"n": 2, "c": 2, "labels": [1], "via": "M", "red": "sum"},
-                {"n": 2, "c": 2, "labels": [1, 0, 1], "via": "F"}, {"n": 1, "c": 2, "labels": [1, 0], "via": "M", "red": "none"}]
+                {"n": 2, "c": 2, "labels": [1, 0, 1], "via": "F"}, {"n": 1, "c": 2, "labels": [1, 0], "via": "M", "red": "none"},
+                {"n": 2, "c": 2, "labels": [1, 0], "via": "M", "red": "avg"}]
 
     def inputs(self, args):
         return [Inp("p", (args["n"], args["c"]))]
